@@ -21,7 +21,7 @@ RULE = (
     "literals on one line or >= 1 literal spanning lines; distinct by content hash."
 )
 ASSUMPTIONS = ["mark names are unique per program, so 'the parameter produced for that literal' is found by name"]
-CASES = {"quick": 2400, "thorough": 40000}
+CASES = {"quick": 4800, "thorough": 40000}
 
 _tape = st.lists(st.integers(0, 10000), min_size=1, max_size=50)
 
